@@ -85,10 +85,11 @@ if [ "$PROP" = "C06" ]; then
   "$VERIF_DIR/tools/nostd_probe.sh"; rc=$?
   [ $rc -ne 0 ] && exit $rc
 fi
-if [ "$PROP" = "C06" ]; then
+if true; then
   # the crate's other configuration: feature `std` on (the default harness build has it off,
-  # i.e. #![no_std] in effect). Zero allocator calls and in-container references must hold in both.
-  ( cd "$H" && flock "$VERIF_DIR/work/.build.lock" cargo build --release -p runner --features mmstd --target-dir "$H/target-std" ) >"$VERIF_DIR/work/build-C06-std.log" 2>&1 || { echo "INCONCLUSIVE: the harness does not build with micromap's std feature (see work/build-C06-std.log)"; tail -n 25 "$VERIF_DIR/work/build-C06-std.log"; exit 2; }
+  # i.e. #![no_std] in effect). Every property is decided in both; for C06 in particular zero
+  # allocator calls and in-container references must hold with and without std.
+  ( cd "$H" && flock "$VERIF_DIR/work/.build.lock" cargo build --release -p runner --features mmstd --target-dir "$H/target-std" ) >"$VERIF_DIR/work/build-$PROP-std.log" 2>&1 || { echo "INCONCLUSIVE: the harness does not build with micromap's std feature (see work/build-$PROP-std.log)"; tail -n 25 "$VERIF_DIR/work/build-$PROP-std.log"; exit 2; }
   run "$H/target-std/release/runner" VERIF_EVIDENCE_SUFFIX=.std VERIF_EVIDENCE_DIR="$VERIF_DIR/work" VERIF_PROFILE_NOTE="release, micromap feature std ON"; rc=$?
   [ $rc -ne 0 ] && exit $rc
   AUX="${AUX:+$AUX:}$VERIF_DIR/work/$PROP.std.json"
